@@ -341,5 +341,16 @@ Example ex_history_on_source :
 Proof. vm_compute. repeat split; reflexivity. Qed.
 
 (* a result whose final runs get the decision vector instead of the reported parameters is not accepted *)
-Example ex_final_applies_decision_rejected : rp_ok (mkRp true true false) = false.
+Example ex_final_applies_decision_rejected : rp_ok (mkRp true true false true) = false.
 Proof. vm_compute. reflexivity. Qed.
+
+(* C10-F1 (repaired): with `params_array.squeeze().to_numpy()` the island's row of a declaration of total width
+   one became a 0-d array and the final application raised IndexError in update_processor; such a description is
+   not accepted, and the model says what happened: nothing was applied *)
+Example ex_bare_squeeze_rejected :
+  rp_ok (mkRp true true true false) = false /\
+  g_final_applied s_exp (mkRp true true true false) desc_as_coded
+    [mkVar "s"%string None true (Shared (Raw 1) (Raw 100))] [Raw 1] = None /\
+  g_final_applied s_exp (mkRp true true true true) desc_as_coded
+    [mkVar "s"%string None true (Shared (Raw 1) (Raw 100))] [Raw 1] = Some [("s"%string, AScalar (Ten 1))].
+Proof. vm_compute. repeat split; reflexivity. Qed.
